@@ -189,6 +189,9 @@ func c17Run(ctx *core.Ctx, idx int, dotu bool, steps int) core.Result {
 		rr := core.NewRand(ctx.Seed, fmt.Sprintf("c17tree/%d", idx))
 		_ = os.MkdirAll(filepath.Join(root, "d1", "d2"), 0o755)
 		_ = os.MkdirAll(filepath.Join(root, "empty"), 0o755)
+		_ = os.MkdirAll(filepath.Join(root, "empty2"), 0o755)
+		_ = os.MkdirAll(filepath.Join(root, "d1", "e3"), 0o755)
+		_ = os.MkdirAll(filepath.Join(root, "d1", "e4"), 0o755)
 		for i := 0; i < 6; i++ {
 			_ = os.WriteFile(filepath.Join(root, []string{"", "d1", "d1/d2"}[i%3], fmt.Sprintf("f%d", i)), rr.Bytes(rr.Intn(2000)), 0o644)
 		}
@@ -403,20 +406,50 @@ func c17Run(ctx *core.Ctx, idx int, dotu bool, steps int) core.Result {
 			nn := freeName(dir)
 			argc = "free"
 			if r.Intn(3) == 0 {
-				if ex, ok := pick("file"); ok && filepath.Dir(ex) == dir && ex != p {
-					nn, argc = filepath.Base(ex), "occupied"
+				// an occupied name: a file, a symlink, an empty or a non-empty directory in the same directory —
+				// rename(2) on the twin decides what that means for each combination of kinds
+				var sibs []string
+				for _, k := range listing("") {
+					if filepath.Dir(k) == dir && k != p {
+						sibs = append(sibs, k)
+					}
+				}
+				if len(sibs) > 0 {
+					ex := sibs[r.Intn(len(sibs))]
+					fi, _ := os.Lstat(filepath.Join(twin, ex))
+					kind := "file"
+					if fi != nil && fi.IsDir() {
+						ents, _ := os.ReadDir(filepath.Join(twin, ex))
+						kind = map[bool]string{true: "emptydir", false: "dir"}[len(ents) == 0]
+					} else if fi != nil && fi.Mode()&os.ModeSymlink != 0 {
+						kind = "symlink"
+					}
+					src := "file"
+					if sfi, _ := os.Lstat(filepath.Join(twin, p)); sfi != nil && sfi.IsDir() {
+						src = "dir"
+					}
+					nn, argc = filepath.Base(ex), "occupied-"+src+"-onto-"+kind
 				}
 			}
 			op = "rename"
+			// a name starting with '/' is relative to the exported root (Ufs's documented convention): rename across directories
+			wname, destRel := nn, filepath.Join(dir, nn)
+			if r.Intn(4) == 0 {
+				if d2, ok := pick("dir"); ok && !strings.HasPrefix(filepath.Join(d2, "x"), p+"/") && d2 != p {
+					n2 := freeName(d2)
+					destRel = filepath.Join(d2, n2)
+					wname, argc = "/"+destRel, "absolute"
+				}
+			}
 			if !walk(fid, p) {
 				continue
 			}
 			st := noTouch()
-			st.Name = nn
+			st.Name = wname
 			rep = rw.rpc(&wire.Msg{Type: wire.Twstat, Fid: fid, Stat: st})
-			perr = syscall.Rename(filepath.Join(twin, p), filepath.Join(twin, dir, nn))
+			perr = syscall.Rename(filepath.Join(twin, p), filepath.Join(twin, destRel))
 			if perr == nil {
-				created = filepath.Join(dir, nn)
+				created = destRel
 				delete(mtimes, p)
 			}
 		case 10: // truncate
